@@ -1263,9 +1263,6 @@ func parseFuncClause(f *FuncSpec, word, rest, pos string, ext bool) error {
 		if w2 != "at" {
 			return fmt.Errorf("%s: expected '%s at <anchor>: expr'", pos, word)
 		}
-		if word == "assume" && !ext {
-			return fmt.Errorf("%s: 'assume' is not accepted in contracts on /repo code", pos)
-		}
 		a, r3, err := parseAnchor(r2, pos)
 		if err != nil {
 			return err
@@ -1273,6 +1270,11 @@ func parseFuncClause(f *FuncSpec, word, rest, pos string, ext bool) error {
 		c, err := parseClause(r3, pos)
 		if err != nil {
 			return err
+		}
+		if word == "assume" && !ext && !strings.HasPrefix(c.Label, "format-") {
+			// the only assumption accepted on /repo code is a well-formedness condition on data read
+			// from a file (an input invariant); it is reported with the run's assumptions
+			return fmt.Errorf("%s: 'assume' is not accepted in contracts on /repo code (except @format-... input invariants)", pos)
 		}
 		f.Asserts = append(f.Asserts, AssertAt{Anchor: a, C: c, Assume: word == "assume"})
 	default:
